@@ -5,7 +5,8 @@
     [path0] its reflexive closure, [finished s] = Run has returned and every goroutine has ended. *)
 From Coq Require Import List Arith Bool.
 From Dawn Require Import Runner.Model Runner.Lemmas Runner.Core Runner.Walk Runner.Reach Runner.Term Runner.Cyc
-     Runner.Proofs_C05 Runner.Examples.
+     Runner.Proofs_C05 Runner.Examples Runner.Report Runner.Proofs_C05r.
+Import ListNotations.
 
 Theorem deadlock_free : forall cfg s, 1 <= c_limit cfg -> reachable cfg s -> finished s = false ->
   exists t, step cfg s t <> None.
@@ -46,6 +47,29 @@ Theorem cycle_reported : forall cfg s, reachable cfg s -> has_cycle cfg -> is_fi
   exists l t, thr s l = Some t /\ In (Failed ECyclic) (t_res t).
 Proof. exact Cyc.cycle_reported. Qed.
 Print Assumptions cycle_reported.
+
+(* "Reported" as dawn's target.go does it: a target walks the results of EvaluateTargets in dependency order and acts on the
+   FIRST failed one; [reports_cycle res] = that one is the cyclic-dependency error (Runner/Report.v).  A call that found a
+   cycle hands the error out for every dependency, so the target that found it reports it whatever else it depends on. *)
+Theorem cyclic_results_uniform : forall cfg s l t, reachable cfg s -> thr s l = Some t -> In (Failed ECyclic) (t_res t) ->
+  t_res t = map (fun _ => Failed ECyclic) (deps cfg l).
+Proof. exact Proofs_C05r.cyclic_results_uniform. Qed.
+Print Assumptions cyclic_results_uniform.
+
+Theorem cycle_reported_first : forall cfg s, reachable cfg s -> has_cycle cfg -> is_final (st s (c_root cfg)) = true ->
+  exists l t, thr s l = Some t /\ reports_cycle (t_res t) = true.
+Proof. exact Proofs_C05r.cycle_reported_first. Qed.
+Print Assumptions cycle_reported_first.
+
+Theorem acyclic_never_reports : forall cfg s l t, acyclic cfg -> reachable cfg s -> thr s l = Some t ->
+  reports_cycle (t_res t) = false.
+Proof. exact Proofs_C05r.acyclic_never_reports. Qed.
+Print Assumptions acyclic_never_reports.
+
+(* the cyclic error behind another failed result is not a report; in first-failed position it is *)
+Example first_failed_decides :
+  reports_cycle [Failed EBody; Failed ECyclic] = false /\ reports_cycle [Succeeded; Failed ECyclic; Failed EBody] = true.
+Proof. split; reflexivity. Qed.
 
 (* non-vacuity: a cyclic configuration with limit 1 and a schedule that ends quiescent with the root Failed and a
    Cyclic result; exhaustive explorations (tests) are in Runner/Examples.v *)
